@@ -7,7 +7,7 @@ props = [json.loads(l)["id"] for l in open(f"{V}/properties.jsonl")]
 rows = []
 for p in props:
     t0 = time.time()
-    r = subprocess.run([f"{V}/run.sh", p, "thorough"], capture_output=True, text=True)
+    r = subprocess.run([f"{V}/run.sh", p, "thorough"], capture_output=True, text=True, errors="replace")
     ev = json.load(open(f"{V}/evidence/{p}.json"))
     for sv in (ev["coverage"].get("self_validation") or []):
         rows.append((sv["seed"], p, sv.get("status"), sv.get("fired"), " ".join(sv.get("rules") or [])))
